@@ -438,10 +438,11 @@ theorem bridge_instantiate_sound_uncond (O : Oracles) (c : ClassDef) (ord : List
 
 Every re-validating entry point (deepcopy, shallow_clone_with_overrides, from_other_class, cast_to,
 serialize-then-deserialize) feeds stored values back into the field.  On the fragment `idemFrag` (Lemmas/Idempotent.lean:
-every declaration kind except Map / AnyOf / inline StructureReference) the stored value is accepted again and stored
-unchanged.  For AnyOf the statement is false as it stands (`anyOf_restores_differently`: the stored value can match an
-EARLIER option that converts it - the result is `==` but not identical); for Map and inline StructureReference it is
-not proved. -/
+every declaration kind - numbers, strings, Boolean, enums, Array / Deque / Tuple (homogeneous and positional), Set, Map,
+class references, OneOf / AllOf / NotField - except AnyOf and inline StructureReference) the stored value is accepted
+again and stored unchanged.  For AnyOf the statement is false as it stands (`anyOf_restores_differently`: the stored
+value can match an EARLIER option that converts it - the result is `==` but not identical); for an inline
+StructureReference (re-construction from the stored instance's attributes) it is not proved. -/
 
 theorem validate_idempotent_partial (O : Oracles) (f : FieldDecl) (v w : PyVal) (hf : idemFrag f = true)
     (h : validate O f v = .ok w) : validate O f w = .ok w := by
@@ -463,7 +464,13 @@ theorem idempotent_example :
     let O : Oracles := { reMatch := fun _ _ => true }
     let f : FieldDecl := .seqOf .list (.tuplePos [.float { min := some ⟨0, 1⟩ }, .boolean, .enumCls "Color" ["RED", "BLUE"],
                                           .oneOf [.boolean, .enumLit [.int 1, .int 3]]] false) { uniq := true }
-    idemFrag f = true
+    let g : FieldDecl := .mapOf .boolean (.setOf true (.float {}) { max := some 2 }) {}
+    idemFrag f = true ∧ idemFrag g = true
+    ∧ (match validate O g (.dict [(.str "True", .set false [.int 1, .float ⟨1, 1⟩]), (.bool true, .set false [.int 2])]) with
+        | .ok w => (match w, validate O g w with
+                    | .dict [(.bool true, .set true [.float a])], .ok (.dict [(.bool true, .set true [.float b])]) => a.num == 2 && b.num == 2
+                    | _, _ => false)
+        | .error _ => false) = true
     ∧ (match validate O f (.list [.tuple [.int 2, .str "True", .str "RED", .str "True"]]) with
         | .ok w => (match validate O f w with
                     | .ok w' => (match w, w' with
